@@ -2,6 +2,7 @@ import abc
 import asyncio
 import copy
 import logging
+import numbers
 import os
 import pathlib
 import time
@@ -54,8 +55,9 @@ class Search(abc.ABC):
         self._problem = copy.deepcopy(problem)
 
         self._seed = None
-        if type(random_state) is int:
-            self._seed = random_state
+        if isinstance(random_state, numbers.Integral):
+            # any integer is a seed: a NumPy integer (np.int64(42), ...) must not fall through to the unseeded generator
+            self._seed = int(random_state)
             self._random_state = np.random.RandomState(random_state)
         elif isinstance(random_state, np.random.RandomState):
             self._random_state = random_state
